@@ -40,7 +40,7 @@ structure DistInst where
   advD : Nat           -- advertised minimum / design distance (0: none advertised)
   exact : Bool         -- the advertised value is documented as exact
   wit : Nat            -- message whose codeword has weight advD (exact values)
-  decided : Bool       -- k small enough for the kernel to enumerate the code
+  decided : Bool       -- lower bound by full enumeration here (otherwise by an information-set certificate, `InfoInst`)
   cyclic : Bool        -- cyclic family: generator polynomial, closure, multiples
   gpoly : Nat
   rot : Nat            -- coordinate p carries the coefficient of X^((p + rot) mod n) …
@@ -57,8 +57,8 @@ def paramsOk (d : DistInst) : Bool :=
   d.advN == d.n && d.advK == d.k && d.G.length == d.k && (d.nameN == 0 || (d.nameN == d.n && d.nameK == d.k))
 
 def distOk (d : DistInst) : Bool :=
-  d.advD == 0 || !d.decided ||
-    (decide (d.advD ≤ spanMin (weight d.n) (d.n + 1) d.G 0 false) &&
+  d.advD == 0 ||
+    ((!d.decided || decide (d.advD ≤ spanMin (weight d.n) (d.n + 1) d.G 0 false)) &&
      (!d.exact || (decide (0 < d.wit) && decide (d.wit < 2 ^ d.k) && weight d.n (encode d.G d.wit) == d.advD)))
 
 def cyclicOk (d : DistInst) : Bool :=
